@@ -780,4 +780,74 @@ func ruleBC3(c *Ctx) {
 			}
 		}
 	}
+	// OBJ-LEN lemma, second half: the constructor keeps the field list it is given (same length)
+	if fd := c.FuncDecl("types", "Obj"); fd != nil && fd.Type.Params != nil && len(fd.Type.Params.List) == 1 && len(fd.Type.Params.List[0].Names) == 1 {
+		param := c.objOf(fd.Type.Params.List[0].Names[0])
+		d := c.localDefs(fd.Body)
+		found, okKeep := false, false
+		keeps := func(e ast.Expr) bool {
+			e = ast.Unparen(e)
+			if id, ok := e.(*ast.Ident); ok {
+				if c.objOf(id) == param {
+					return true
+				}
+				if def, ok := d[c.objOf(id)]; ok {
+					e = ast.Unparen(def)
+				}
+			}
+			if id, ok := e.(*ast.Ident); ok && c.objOf(id) == param {
+				return true
+			}
+			// append(<empty>, fields...)
+			if ce, ok := e.(*ast.CallExpr); ok && c.calleeName(ce) == "builtin.append" && len(ce.Args) == 2 && ce.Ellipsis.IsValid() {
+				if id, ok := ast.Unparen(ce.Args[1]).(*ast.Ident); ok && c.objOf(id) == param {
+					switch a0 := ast.Unparen(ce.Args[0]).(type) {
+					case *ast.Ident:
+						return a0.Name == "nil"
+					case *ast.CallExpr:
+						return len(a0.Args) == 1 && src(a0.Args[0]) == "nil"
+					case *ast.CompositeLit:
+						return len(a0.Elts) == 0
+					}
+				}
+			}
+			return false
+		}
+		ast.Inspect(fd.Body, func(x ast.Node) bool {
+			cl, ok := x.(*ast.CompositeLit)
+			if !ok || typeStr(c.typeOf(cl)) != "types.ObjTy" {
+				return true
+			}
+			found = true
+			st, _ := c.typeOf(cl).Underlying().(*types.Struct)
+			for i, el := range cl.Elts {
+				name := ""
+				v := el
+				if kv, ok := el.(*ast.KeyValueExpr); ok {
+					name = src(kv.Key)
+					v = kv.Value
+				} else if st != nil && i < st.NumFields() {
+					name = st.Field(i).Name()
+				}
+				if name == "Fields" {
+					okKeep = keeps(v)
+				}
+			}
+			return true
+		})
+		// later whole-field reassignments of .Fields inside the constructor
+		ast.Inspect(fd.Body, func(x ast.Node) bool {
+			if as, ok := x.(*ast.AssignStmt); ok {
+				for i, l := range as.Lhs {
+					if se, ok := l.(*ast.SelectorExpr); ok && se.Sel.Name == "Fields" && i < len(as.Rhs) && !keeps(as.Rhs[i]) {
+						okKeep = false
+					}
+				}
+			}
+			return true
+		})
+		c.R.Check(found && okKeep, "types.Obj", "lemma OBJ-LEN: the object type keeps the field list it was given", fd.Pos(), "ObjTy.Fields is the parameter itself: as many fields as the literal has", "types.Obj may build an object type with a different number of fields than it was given (fields dropped, merged or added): the VM pushes one value per literal field and OP_NEW_OBJ pops one per type field")
+	} else {
+		c.R.Anchor("types.Obj")
+	}
 }
